@@ -1,3 +1,677 @@
+(* C20 — proofs about the trace recorder: chunked event lists, the shape and JSON
+   well-formedness of what saveLog writes, completeness per thread and begin/end nesting. *)
 From Common Require Import Prelude.
-From C20 Require Import Model Spec.
+From C20 Require Import Model Spec ProofsImage.
 Local Open Scope N_scope.
+
+(* ================================================================== chunks *)
+Lemma get_current_snoc r c :
+  get_current (r ++ [c]) =
+  if chunk_size <=? N.of_nat (length c) then (r ++ [c]) ++ [[]] else r ++ [c].
+Proof. unfold get_current. rewrite rev_app_distr. reflexivity. Qed.
+
+Lemma push_last_snoc r c e : push_last (r ++ [c]) e = r ++ [c ++ [e]].
+Proof. unfold push_last. rewrite rev_app_distr. cbn [rev app]. rewrite rev_involutive. reflexivity. Qed.
+
+(* one recording step: either the event goes to the end of the last chunk, which has room,
+   or it opens a new chunk because there is none / the last is full.  All other chunks are
+   left as they are. *)
+Lemma record_cases l e :
+  (l = [] /\ record l e = [[e]]) \/
+  (exists r c, l = r ++ [c] /\ N.of_nat (length c) < chunk_size /\ record l e = r ++ [c ++ [e]]) \/
+  (exists r c, l = r ++ [c] /\ chunk_size <= N.of_nat (length c) /\ record l e = l ++ [[e]]).
+Proof.
+  destruct l as [|c r _] using rev_ind.
+  - left. split; reflexivity.
+  - right. unfold record. rewrite get_current_snoc.
+    destruct (N.leb_spec chunk_size (N.of_nat (length c))) as [Hfull|Hroom].
+    + right. exists r, c. split; [reflexivity|]. split; [exact Hfull|].
+      rewrite push_last_snoc. reflexivity.
+    + left. exists r, c. split; [reflexivity|]. split; [exact Hroom|]. apply push_last_snoc.
+Qed.
+
+Definition chunk_ok (c : list tev) : Prop := (1 <= length c)%nat /\ N.of_nat (length c) <= chunk_size.
+Definition chunk_full (c : list tev) : Prop := N.of_nat (length c) = chunk_size.
+Definition chunks_ok (l : tlist) : Prop := Forall chunk_ok l /\ Forall chunk_full (removelast l).
+
+Lemma chunks_ok_nil : chunks_ok [].
+Proof. split; constructor. Qed.
+
+Lemma record_ok l e :
+  chunks_ok l -> chunks_ok (record l e) /\ concat (record l e) = concat l ++ [e].
+Proof.
+  intros [Hok Hfull].
+  destruct (record_cases l e) as [[El Er]|[[r [c [El [Hc Er]]]]|[r [c [El [Hc Er]]]]]]; rewrite Er.
+  - subst l. split; [|reflexivity]. split.
+    + constructor; [|constructor]. unfold chunk_ok, chunk_size. cbn. lia.
+    + cbn. constructor.
+  - subst l. rewrite removelast_last in Hfull. apply Forall_app in Hok. destruct Hok as [Hr Hcc].
+    split.
+    + split.
+      * apply Forall_app. split; [exact Hr|]. constructor; [|constructor].
+        unfold chunk_ok. rewrite app_length. cbn [length]. lia.
+      * rewrite removelast_last. exact Hfull.
+    + rewrite !concat_app. cbn [concat]. rewrite !app_nil_r, app_assoc. reflexivity.
+  - split.
+    + split.
+      * apply Forall_app. split; [exact Hok|]. constructor; [|constructor].
+        unfold chunk_ok, chunk_size. cbn. lia.
+      * rewrite removelast_last. subst l. rewrite removelast_last in Hfull.
+        apply Forall_app in Hok. destruct Hok as [Hr Hcc]. apply Forall_app. split; [exact Hfull|].
+        constructor; [|constructor]. inversion Hcc as [|c' l' [_ Hle] _]; subst.
+        unfold chunk_full. lia.
+    + rewrite concat_app. cbn [concat]. rewrite app_nil_r. reflexivity.
+Qed.
+
+Lemma record_fold evs : forall l,
+  chunks_ok l -> chunks_ok (fold_left record evs l) /\ concat (fold_left record evs l) = concat l ++ evs.
+Proof.
+  induction evs as [|e evs IH]; intros l Hl; cbn [fold_left].
+  - rewrite app_nil_r. split; [exact Hl | reflexivity].
+  - destruct (record_ok l e Hl) as [Hl' Ec]. destruct (IH _ Hl') as [H1 H2].
+    split; [exact H1|]. rewrite H2, Ec, <- app_assoc. reflexivity.
+Qed.
+
+(* chunks_concat *)
+Lemma chunks_concat evs :
+  concat (record_all evs) = evs /\
+  Forall (fun c => (1 <= length c)%nat /\ N.of_nat (length c) <= chunk_size) (record_all evs) /\
+  Forall (fun c => N.of_nat (length c) = chunk_size) (removelast (record_all evs)).
+Proof.
+  destruct (record_fold evs [] chunks_ok_nil) as [[H1 H2] H3]. split; [exact H3|]. split; assumption.
+Qed.
+
+(* the same for every prefix of the recording: no chunk ever exceeds the reserved capacity *)
+Lemma record_all_app evs1 evs2 : record_all (evs1 ++ evs2) = fold_left record evs2 (record_all evs1).
+Proof. unfold record_all. apply fold_left_app. Qed.
+
+(* a recording step appends to a vector that still has room (size < capacity 8192: push_back does
+   not reallocate) or to a fresh one; the chunks before it stay put *)
+Lemma record_no_realloc evs e :
+  exists r c, record (record_all evs) e = r ++ [c ++ [e]] /\
+              N.of_nat (length c) < chunk_size /\
+              (record_all evs = r ++ [c] \/ (record_all evs = r /\ c = [])).
+Proof.
+  destruct (record_cases (record_all evs) e) as [[El Er]|[[r [c [El [Hc Er]]]]|[r [c [El [Hc Er]]]]]].
+  - exists [], []. rewrite Er, El. split; [reflexivity|]. split; [reflexivity|]. right. split; reflexivity.
+  - exists r, c. split; [exact Er|]. split; [exact Hc|]. left. exact El.
+  - exists (record_all evs), []. split; [exact Er|]. split; [reflexivity|]. right. split; reflexivity.
+Qed.
+
+(* ================================================================== shape of the log text *)
+Lemma flat_map_render_intercalate objs : forall o,
+  flat_map (fun o => render o ++ [44]) (o :: objs) = intercalate [44] (map render (o :: objs)) ++ [44].
+Proof.
+  induction objs as [|o' objs IH]; intro o.
+  - cbn. rewrite app_nil_r. reflexivity.
+  - cbn [flat_map] in *. rewrite IH. cbn [map intercalate]. rewrite <- !app_assoc. reflexivity.
+Qed.
+
+Lemma seek_overwrite_comma x : seek_overwrite ([91] ++ x ++ [44]) = [91] ++ x ++ [93].
+Proof.
+  assert (E : seek_overwrite ([91] ++ x ++ [44]) = removelast ([91] ++ x ++ [44]) ++ [93]).
+  { destruct x as [|a x]; reflexivity. }
+  rewrite E. rewrite (app_assoc [91] x [44]), removelast_last, <- app_assoc. reflexivity.
+Qed.
+
+Lemma saveLog_shape pname pid ths :
+  saveLog pname pid ths = [91] ++ intercalate [44] (map render (log_objs pname pid ths)) ++ [93].
+Proof.
+  unfold saveLog, log_body. destruct (log_objs pname pid ths) as [|o objs].
+  - reflexivity.
+  - rewrite flat_map_render_intercalate. apply seek_overwrite_comma.
+Qed.
+
+(* the unrepaired writer on an empty log: "]" *)
+Lemma saveLog_old_empty pid : saveLog_old None pid [] = [93] /\ json_array (saveLog_old None pid []) = false.
+Proof. split; reflexivity. Qed.
+
+(* ================================================================== the recogniser accepts it *)
+Definition trans (s : str) (p q : pda) : Prop := run p s = Some q.
+
+Lemma run_app p a b :
+  run p (a ++ b) = match run p a with Some p' => run p' b | None => None end.
+Proof.
+  revert p. induction a as [|c a IH]; intro p; cbn [app run]; [reflexivity|].
+  destruct (step p c); [apply IH | reflexivity].
+Qed.
+
+Lemma trans_app a b p q r : trans a p q -> trans b q r -> trans (a ++ b) p r.
+Proof. unfold trans. intros H1 H2. rewrite run_app, H1. exact H2. Qed.
+
+
+Lemma str_char_not_quote c : str_char_ok c = true -> (c =? 34) = false.
+Proof.
+  unfold str_char_ok. intro H. destruct (c =? 34); [|reflexivity].
+  rewrite andb_false_r in H. discriminate.
+Qed.
+
+Lemma trans_text stk k s : text_ok s -> trans s (mkP stk (MStr k)) (mkP stk (MStr k)).
+Proof.
+  unfold trans, text_ok. induction s as [|c s IH]; intro H; cbn [run]; [reflexivity|].
+  cbn [forallb] in H. apply andb_true_iff in H. destruct H as [Hc Hs].
+  cbn [step p_mode p_stack]. rewrite (str_char_not_quote c Hc), Hc. apply IH. exact Hs.
+Qed.
+
+(* numbers *)
+Lemma digit_bounds d : is_digit d = true -> 48 <= d <= 57.
+Proof. unfold is_digit. intro H. apply andb_true_iff in H. lia. Qed.
+
+Lemma digit_start stk d : is_digit d = true -> step (mkP stk MValue) d = Some (mkP stk (MNum NInt)).
+Proof.
+  intro H. pose proof (digit_bounds d H) as B.
+  cbn [step p_mode p_stack]. unfold is_ws, start_value.
+  destruct (N.eqb_spec d 32); [lia|]. destruct (N.eqb_spec d 9); [lia|].
+  destruct (N.eqb_spec d 10); [lia|]. destruct (N.eqb_spec d 13); [lia|]. cbn [orb].
+  destruct (N.eqb_spec d 34); [lia|]. destruct (N.eqb_spec d 123); [lia|].
+  destruct (N.eqb_spec d 91); [lia|]. destruct (N.eqb_spec d 45); [lia|].
+  rewrite H. reflexivity.
+Qed.
+
+Lemma trans_num_run stk s : forall q q', num_run q s = Some q' -> trans s (mkP stk (MNum q)) (mkP stk (MNum q')).
+Proof.
+  unfold trans. induction s as [|c s IH]; intros q q' H; cbn [num_run run] in *.
+  - inversion H. reflexivity.
+  - cbn [step p_mode p_stack]. destruct (num_step q c) as [q1|]; [|discriminate]. apply IH. exact H.
+Qed.
+
+Lemma num_run_digits s : forallb is_digit s = true -> num_run NInt s = Some NInt.
+Proof.
+  induction s as [|c s IH]; intro H; cbn [num_run]; [reflexivity|].
+  cbn [forallb] in H. apply andb_true_iff in H. destruct H as [Hc Hs].
+  cbn [num_step]. rewrite Hc. apply IH. exact Hs.
+Qed.
+
+Lemma trans_dec stk n : trans (dec n) (mkP stk MValue) (mkP stk (MNum NInt)).
+Proof.
+  pose proof (uint_chars_digits (N.to_uint n)) as D. fold (dec n) in D.
+  destruct (dec n) as [|d ds] eqn:E; [exfalso; exact (dec_nonempty n E)|].
+  cbn [forallb] in D. apply andb_true_iff in D. destruct D as [Hd Hds].
+  change (d :: ds) with ([d] ++ ds). eapply trans_app.
+  - unfold trans. cbn [run]. rewrite (digit_start stk d Hd). reflexivity.
+  - apply trans_num_run. apply num_run_digits. exact Hds.
+Qed.
+
+Lemma is_number_dec n : is_number (dec n) = true.
+Proof.
+  pose proof (uint_chars_digits (N.to_uint n)) as D. fold (dec n) in D.
+  destruct (dec n) as [|d ds] eqn:E; [exfalso; exact (dec_nonempty n E)|].
+  cbn [forallb] in D. apply andb_true_iff in D. destruct D as [Hd Hds].
+  unfold is_number. pose proof (digit_bounds d Hd) as B.
+  destruct (N.eqb_spec d 45); [lia|]. rewrite Hd, (num_run_digits ds Hds). reflexivity.
+Qed.
+
+Lemma trans_number stk s :
+  is_number s = true -> exists q, num_final q = true /\ trans s (mkP stk MValue) (mkP stk (MNum q)).
+Proof.
+  unfold is_number. destruct s as [|d r]; [discriminate|]. intro H.
+  destruct (N.eqb_spec d 45) as [E|E].
+  - subst d. destruct (num_run NMinus r) as [q'|] eqn:R; [|discriminate].
+    exists q'. split; [exact H|]. change (45 :: r) with ([45] ++ r). eapply trans_app.
+    + reflexivity.
+    + apply trans_num_run. exact R.
+  - destruct (is_digit d) eqn:Hd; [|discriminate].
+    destruct (num_run NInt r) as [q'|] eqn:R; [|discriminate].
+    exists q'. split; [exact H|]. change (d :: r) with ([d] ++ r). eapply trans_app.
+    + unfold trans. cbn [run]. rewrite (digit_start stk d Hd). reflexivity.
+    + apply trans_num_run. exact R.
+Qed.
+
+(* a number followed by the "}" that closes the object it is the last value of *)
+Lemma trans_number_close stk u :
+  is_number u = true -> trans (u ++ Lit.close1) (mkP (CObj :: stk) MValue) (mkP stk (after stk)).
+Proof.
+  intro H. destruct (trans_number (CObj :: stk) u H) as [q [Hq T]].
+  eapply trans_app; [exact T|]. destruct q; try discriminate; reflexivity.
+Qed.
+
+
+Ltac seg :=
+  first [ eapply trans_app; [apply trans_dec|]
+        | eapply trans_app; [apply trans_text; assumption|]
+        | eapply trans_app; [unfold trans; reflexivity|] ].
+
+Definition vmode (m : mode) : Prop := m = MValue \/ m = MValueOrClose.
+
+(* every object saveLog prints is one JSON value, wherever a value may stand *)
+Lemma trans_render o stk m :
+  obj_ok o -> vmode m -> trans (render o) (mkP stk m) (mkP stk (after stk)).
+Proof.
+  intros Ho Hm. destruct o as [pid pname|pid tid tname|pid tid e|pid tid bts util]; cbn [obj_ok] in Ho.
+  - cbn [render]. destruct Hm as [-> | ->]; repeat seg; unfold trans; reflexivity.
+  - cbn [render]. destruct Hm as [-> | ->]; repeat seg; unfold trans; reflexivity.
+  - destruct Ho as [Hname [Hcat Hutil]].
+    cbn [render]. destruct (e_kind e) eqn:K; cbn [kind_char].
+    + (* begin *)
+      destruct (e_cat e) as [c|] eqn:Ec.
+      * pose proof (Hcat c eq_refl) as Hc. repeat rewrite <- app_assoc. cbn [app].
+        destruct Hm as [-> | ->]; repeat seg; unfold trans; reflexivity.
+      * repeat rewrite <- app_assoc. cbn [app].
+        destruct Hm as [-> | ->]; repeat seg; unfold trans; reflexivity.
+    + (* end *)
+      pose proof (Hutil eq_refl) as Hu. repeat rewrite <- app_assoc. cbn [app].
+      rewrite (app_assoc (e_util e) Lit.close1).
+      destruct Hm as [-> | ->]; repeat seg;
+        (eapply trans_app; [apply trans_number_close; exact Hu|]); unfold trans; reflexivity.
+    + (* marker *)
+      destruct (e_cat e) as [c|] eqn:Ec.
+      * pose proof (Hcat c eq_refl) as Hc. repeat rewrite <- app_assoc. cbn [app].
+        destruct Hm as [-> | ->]; repeat seg; unfold trans; reflexivity.
+      * repeat rewrite <- app_assoc. cbn [app].
+        destruct Hm as [-> | ->]; repeat seg; unfold trans; reflexivity.
+    + (* counter *)
+      destruct (e_cat e) as [c|] eqn:Ec.
+      * pose proof (Hcat c eq_refl) as Hc. repeat rewrite <- app_assoc. cbn [app].
+        destruct Hm as [-> | ->]; repeat seg; unfold trans; reflexivity.
+      * repeat rewrite <- app_assoc. cbn [app].
+        destruct Hm as [-> | ->]; repeat seg; unfold trans; reflexivity.
+  - cbn [render]. change Lit.close2 with (Lit.close1 ++ Lit.close1).
+    rewrite (app_assoc util Lit.close1).
+    destruct Hm as [-> | ->]; repeat seg;
+      (eapply trans_app; [apply trans_number_close; exact Ho|]); unfold trans; reflexivity.
+Qed.
+
+Lemma render_starts_with_brace o : exists r, render o = 123 :: r.
+Proof. destruct o; cbn [render]; eexists; reflexivity. Qed.
+
+Lemma render_is_object o : obj_ok o -> json_object (render o) = true.
+Proof.
+  intro Ho. pose proof (trans_render o [] MValue Ho (or_introl eq_refl)) as T.
+  destruct (render_starts_with_brace o) as [r E]. rewrite E in *. unfold trans in T.
+  change (run (mkP [CObj] MKeyOrClose) r = Some (mkP [] MDone)) in T.
+  unfold json_object. rewrite T. reflexivity.
+Qed.
+
+Lemma trans_items objs : forall m,
+  Forall obj_ok objs -> objs <> [] -> vmode m ->
+  trans (intercalate [44] (map render objs)) (mkP [CArr] m) (mkP [CArr] MAfter).
+Proof.
+  induction objs as [|o objs IH]; intros m Hall Hne Hm; [contradiction|].
+  inversion Hall as [|o' l' Ho Hall']; subst.
+  destruct objs as [|o2 objs].
+  - cbn [map intercalate]. apply (trans_render o [CArr] m Ho Hm).
+  - change (intercalate [44] (map render (o :: o2 :: objs)))
+      with (render o ++ [44] ++ intercalate [44] (map render (o2 :: objs))).
+    eapply trans_app; [apply (trans_render o [CArr] m Ho Hm)|].
+    eapply trans_app; [unfold trans; reflexivity|].
+    apply IH; [exact Hall' | discriminate | left; reflexivity].
+Qed.
+
+Lemma json_array_intercalate objs :
+  Forall obj_ok objs -> json_array ([91] ++ intercalate [44] (map render objs) ++ [93]) = true.
+Proof.
+  intro Hall. cbn [app json_array]. destruct objs as [|o objs].
+  - reflexivity.
+  - assert (T : trans (intercalate [44] (map render (o :: objs)) ++ [93])
+                      (mkP [CArr] MValueOrClose) (mkP [] MDone)).
+    { eapply trans_app; [apply trans_items; [exact Hall | discriminate | right; reflexivity]|].
+      unfold trans. reflexivity. }
+    unfold trans in T. rewrite T. reflexivity.
+Qed.
+
+(* ------------------------------------------------------------------ the objects are well formed *)
+(* emit_chunk as two functions *)
+Definition eo pid tid c st := fst (emit_chunk pid tid c st).
+Definition es pid tid c st := snd (emit_chunk pid tid c st).
+
+
+Lemma eo_nil pid tid st : eo pid tid [] st = [].
+Proof. reflexivity. Qed.
+Lemma es_nil pid tid st : es pid tid [] st = st.
+Proof. reflexivity. Qed.
+
+Lemma eo_cons pid tid e rest st :
+  eo pid tid (e :: rest) st =
+  match e_kind e with
+  | KBegin => JEvent pid tid e :: eo pid tid rest (e :: st)
+  | KEnd => match st with
+            | [] => []
+            | b :: st' => JEvent pid tid e :: util_of pid tid b e ++ eo pid tid rest st'
+            end
+  | _ => JEvent pid tid e :: eo pid tid rest st
+  end.
+Proof.
+  unfold eo, util_of. cbn [emit_chunk]. destruct (e_kind e).
+  - destruct (emit_chunk pid tid rest (e :: st)); reflexivity.
+  - destruct st as [|b st']; [reflexivity|]. destruct (emit_chunk pid tid rest st'); reflexivity.
+  - destruct (emit_chunk pid tid rest st); reflexivity.
+  - destruct (emit_chunk pid tid rest st); reflexivity.
+Qed.
+
+Lemma es_cons pid tid e rest st :
+  es pid tid (e :: rest) st =
+  match e_kind e with
+  | KBegin => es pid tid rest (e :: st)
+  | KEnd => match st with
+            | [] => []
+            | b :: st' => es pid tid rest st'
+            end
+  | _ => es pid tid rest st
+  end.
+Proof.
+  unfold es. cbn [emit_chunk]. destruct (e_kind e).
+  - destruct (emit_chunk pid tid rest (e :: st)); reflexivity.
+  - destruct st as [|b st']; [reflexivity|]. destruct (emit_chunk pid tid rest st'); reflexivity.
+  - destruct (emit_chunk pid tid rest st); reflexivity.
+  - destruct (emit_chunk pid tid rest st); reflexivity.
+Qed.
+
+Lemma emit_chunks_cons pid tid c cs st :
+  emit_chunks pid tid (c :: cs) st = eo pid tid c st ++ emit_chunks pid tid cs (es pid tid c st).
+Proof. unfold eo, es. cbn [emit_chunks]. destruct (emit_chunk pid tid c st); reflexivity. Qed.
+
+Definition stack_ok (st : list tev) : Prop := Forall ev_ok st.
+
+Lemma eo_ok pid tid c : forall st,
+  Forall ev_ok c -> Forall ev_ok st ->
+  Forall obj_ok (eo pid tid c st) /\ Forall ev_ok (es pid tid c st).
+Proof.
+  induction c as [|e c IH]; intros st Hc Hst.
+  - rewrite eo_nil, es_nil. split; [constructor | exact Hst].
+  - inversion Hc as [|e' c' He Hc']; subst. rewrite eo_cons, es_cons.
+    destruct (e_kind e) eqn:K.
+    + destruct (IH (e :: st) Hc' (Forall_cons _ He Hst)) as [H1 H2].
+      split; [constructor; [exact He | exact H1] | exact H2].
+    + destruct st as [|b st']; [split; constructor|].
+      inversion Hst as [|b' s' Hb Hst']; subst.
+      destruct (IH st' Hc' Hst') as [H1 H2]. split; [|exact H2].
+      constructor; [exact He|]. apply Forall_app. split; [|exact H1].
+      unfold util_of. destruct (is_long b e); constructor; [|constructor].
+      cbn [obj_ok]. destruct He as [_ [_ Hu]]. apply Hu. exact K.
+    + destruct (IH st Hc' Hst) as [H1 H2]. split; [constructor; [exact He | exact H1] | exact H2].
+    + destruct (IH st Hc' Hst) as [H1 H2]. split; [constructor; [exact He | exact H1] | exact H2].
+Qed.
+
+Lemma emit_chunks_ok pid tid cs : forall st,
+  Forall (Forall ev_ok) cs -> Forall ev_ok st -> Forall obj_ok (emit_chunks pid tid cs st).
+Proof.
+  induction cs as [|c cs IH]; intros st Hcs Hst; [constructor|].
+  inversion Hcs as [|c' l' Hc Hcs']; subst. rewrite emit_chunks_cons.
+  destruct (eo_ok pid tid c st Hc Hst) as [H1 H2]. apply Forall_app. split; [exact H1|].
+  apply IH; assumption.
+Qed.
+
+
+Lemma emit_threads_ok pid ths : forall tid, Forall thread_ok ths -> Forall obj_ok (emit_threads pid tid ths).
+Proof.
+  induction ths as [|t ths IH]; intros tid H; [constructor|].
+  inversion H as [|t' l' [Hn He] H']; subst. cbn [emit_threads].
+  constructor; [exact Hn|]. apply Forall_app. split; [apply emit_chunks_ok; [exact He | constructor]|].
+  apply IH. exact H'.
+Qed.
+
+Lemma log_objs_ok pname pid ths :
+  (forall p, pname = Some p -> text_ok p) -> Forall thread_ok ths -> Forall obj_ok (log_objs pname pid ths).
+Proof.
+  intros Hp Ht. unfold log_objs. apply Forall_app. split; [|apply emit_threads_ok; exact Ht].
+  destruct pname as [p|]; [|constructor]. constructor; [|constructor]. apply Hp. reflexivity.
+Qed.
+
+(* savelog_wellformed *)
+Lemma savelog_wellformed pname pid ths :
+  (forall p, pname = Some p -> text_ok p) -> Forall thread_ok ths ->
+  let objs := log_objs pname pid ths in
+  saveLog pname pid ths = [91] ++ intercalate [44] (map render objs) ++ [93] /\
+  Forall (fun o => json_object (render o) = true) objs /\
+  json_array (saveLog pname pid ths) = true.
+Proof.
+  intros Hp Ht objs. pose proof (log_objs_ok pname pid ths Hp Ht) as Hall. fold objs in Hall.
+  split; [apply saveLog_shape|]. split.
+  - eapply Forall_impl; [|exact Hall]. intros o Ho. apply render_is_object. exact Ho.
+  - rewrite saveLog_shape. apply json_array_intercalate. exact Hall.
+Qed.
+
+(* threads that recorded through record_all inherit ev_ok from their events *)
+Lemma Forall_concat {A} (P : A -> Prop) (l : list (list A)) : Forall P (concat l) -> Forall (Forall P) l.
+Proof.
+  induction l as [|c l IH]; cbn [concat]; intro H; [constructor|].
+  apply Forall_app in H. destruct H as [H1 H2]. constructor; [exact H1 | apply IH; exact H2].
+Qed.
+
+Lemma record_all_ev_ok evs : Forall ev_ok evs -> Forall (Forall ev_ok) (record_all evs).
+Proof.
+  intro H. apply Forall_concat. destruct (chunks_concat evs) as [E _]. rewrite E. exact H.
+Qed.
+
+(* ================================================================== completeness per thread *)
+Lemma events_of_tid_app tid a b : events_of_tid tid (a ++ b) = events_of_tid tid a ++ events_of_tid tid b.
+Proof. unfold events_of_tid. apply flat_map_app. Qed.
+
+Lemma events_of_util k pid tid b e : events_of_tid k (util_of pid tid b e) = [].
+Proof. unfold util_of. destruct (is_long b e); reflexivity. Qed.
+
+Lemma events_of_event_same pid tid e l :
+  events_of_tid tid (JEvent pid tid e :: l) = e :: events_of_tid tid l.
+Proof. unfold events_of_tid. cbn [flat_map]. rewrite N.eqb_refl. reflexivity. Qed.
+
+Lemma events_of_event_other k pid tid e l :
+  k <> tid -> events_of_tid k (JEvent pid tid e :: l) = events_of_tid k l.
+Proof.
+  intro H. unfold events_of_tid. cbn [flat_map]. destruct (N.eqb_spec tid k); [congruence | reflexivity].
+Qed.
+
+Lemma no_stray_end_app d a b : forall (H : no_stray_end d (a ++ b) = true), no_stray_end d a = true.
+Proof.
+  revert d. induction a as [|e a IH]; intros d H; [reflexivity|].
+  cbn [app no_stray_end] in *. destruct (e_kind e).
+  - apply IH. exact H.
+  - destruct d as [|d']; [discriminate|]. apply IH. exact H.
+  - apply IH. exact H.
+  - apply IH. exact H.
+Qed.
+
+(* with no END lacking an open BEGIN, the events of a chunk all reach the output, in order,
+   and what is left on the stack is as deep as the nesting says *)
+Lemma eo_events pid tid c : forall st rest,
+  no_stray_end (length st) (c ++ rest) = true ->
+  events_of_tid tid (eo pid tid c st) = c /\
+  no_stray_end (length (es pid tid c st)) rest = true.
+Proof.
+  induction c as [|e c IH]; intros st rest H.
+  - rewrite eo_nil, es_nil. split; [reflexivity | exact H].
+  - rewrite eo_cons, es_cons. cbn [app no_stray_end] in H. destruct (e_kind e).
+    + destruct (IH (e :: st) rest H) as [H1 H2]. rewrite events_of_event_same, H1. split; [reflexivity | exact H2].
+    + destruct st as [|b st']; [discriminate|]. cbn [length] in H.
+      destruct (IH st' rest H) as [H1 H2].
+      rewrite events_of_event_same, events_of_tid_app, events_of_util, H1. split; [reflexivity | exact H2].
+    + destruct (IH st rest H) as [H1 H2]. rewrite events_of_event_same, H1. split; [reflexivity | exact H2].
+    + destruct (IH st rest H) as [H1 H2]. rewrite events_of_event_same, H1. split; [reflexivity | exact H2].
+Qed.
+
+Lemma emit_chunks_events pid tid cs : forall st,
+  no_stray_end (length st) (concat cs) = true ->
+  events_of_tid tid (emit_chunks pid tid cs st) = concat cs.
+Proof.
+  induction cs as [|c cs IH]; intros st H; [reflexivity|].
+  cbn [concat] in *. rewrite emit_chunks_cons, events_of_tid_app.
+  destruct (eo_events pid tid c st (concat cs) H) as [H1 H2]. rewrite H1, (IH _ H2). reflexivity.
+Qed.
+
+(* objects of another thread id contribute nothing *)
+Lemma eo_other k pid tid c : forall st, k <> tid -> events_of_tid k (eo pid tid c st) = [].
+Proof.
+  induction c as [|e c IH]; intros st Hk; [reflexivity|].
+  rewrite eo_cons. destruct (e_kind e).
+  - rewrite events_of_event_other by exact Hk. apply IH. exact Hk.
+  - destruct st as [|b st']; [reflexivity|].
+    rewrite events_of_event_other by exact Hk. rewrite events_of_tid_app, events_of_util. apply IH. exact Hk.
+  - rewrite events_of_event_other by exact Hk. apply IH. exact Hk.
+  - rewrite events_of_event_other by exact Hk. apply IH. exact Hk.
+Qed.
+
+Lemma emit_chunks_other k pid tid cs : forall st, k <> tid -> events_of_tid k (emit_chunks pid tid cs st) = [].
+Proof.
+  induction cs as [|c cs IH]; intros st Hk; [reflexivity|].
+  rewrite emit_chunks_cons, events_of_tid_app, eo_other, IH by exact Hk. reflexivity.
+Qed.
+
+
+Lemma emit_threads_events pid ths : forall t0 k,
+  Forall thread_nested ths ->
+  events_of_tid k (emit_threads pid t0 ths) =
+  if k <? t0 then []
+  else match nth_error ths (N.to_nat (k - t0)) with
+       | Some t => concat (t_events t)
+       | None => []
+       end.
+Proof.
+  induction ths as [|t ths IH]; intros t0 k H.
+  - cbn [emit_threads]. destruct (k <? t0); [reflexivity|]. destruct (N.to_nat (k - t0)); reflexivity.
+  - inversion H as [|t' l' Ht H']; subst. cbn [emit_threads].
+    change (JThread pid t0 (t_name t) :: emit_chunks pid t0 (t_events t) [] ++ emit_threads pid (t0 + 1) ths)
+      with ([JThread pid t0 (t_name t)] ++ emit_chunks pid t0 (t_events t) [] ++ emit_threads pid (t0 + 1) ths).
+    rewrite !events_of_tid_app. change (events_of_tid k [JThread pid t0 (t_name t)]) with (@nil tev).
+    rewrite (IH (t0 + 1) k H'). cbn [app].
+    destruct (N.ltb_spec k t0) as [Hlt|Hge].
+    + rewrite emit_chunks_other by lia. destruct (N.ltb_spec k (t0 + 1)); [reflexivity | lia].
+    + destruct (N.eq_dec k t0) as [E|E].
+      * subst k. rewrite emit_chunks_events by exact Ht.
+        destruct (N.ltb_spec t0 (t0 + 1)); [|lia]. rewrite N.sub_diag. cbn [N.to_nat nth_error].
+        rewrite app_nil_r. reflexivity.
+      * rewrite emit_chunks_other by exact E. destruct (N.ltb_spec k (t0 + 1)); [lia|].
+        replace (N.to_nat (k - t0)) with (S (N.to_nat (k - (t0 + 1)))) by lia. reflexivity.
+Qed.
+
+
+(* savelog_complete *)
+Lemma savelog_complete pname pid (l : list (str * list tev)) k nm evs :
+  Forall (fun p => no_stray_end 0 (snd p) = true) l ->
+  nth_error l k = Some (nm, evs) ->
+  events_of_tid (N.of_nat k) (log_objs pname pid (threads_of l)) = evs.
+Proof.
+  intros Hall Hk. unfold log_objs. rewrite events_of_tid_app.
+  assert (E0 : events_of_tid (N.of_nat k) (match pname with Some p => [JProc pid p] | None => [] end) = []).
+  { destruct pname; reflexivity. }
+  rewrite E0. cbn [app]. rewrite emit_threads_events.
+  - destruct (N.ltb_spec (N.of_nat k) 0); [lia|]. rewrite N.sub_0_r, Nat2N.id.
+    unfold threads_of. rewrite nth_error_map, Hk. cbn [option_map t_events fst snd].
+    apply chunks_concat.
+  - unfold threads_of. apply Forall_forall. intros t Ht. apply in_map_iff in Ht.
+    destruct Ht as [p [Ep Hp]]. subst t. unfold thread_nested. cbn [t_events].
+    destruct (chunks_concat (snd p)) as [Ec _]. rewrite Ec.
+    rewrite Forall_forall in Hall. apply Hall. exact Hp.
+Qed.
+
+(* ================================================================== nesting *)
+Lemma eo_app pid tid a : forall b st,
+  no_stray_end (length st) a = true ->
+  eo pid tid (a ++ b) st = eo pid tid a st ++ eo pid tid b (es pid tid a st) /\
+  es pid tid (a ++ b) st = es pid tid b (es pid tid a st).
+Proof.
+  induction a as [|e a IH]; intros b st H.
+  - rewrite eo_nil, es_nil. split; reflexivity.
+  - cbn [app]. rewrite !eo_cons, !es_cons. cbn [no_stray_end] in H. destruct (e_kind e).
+    + destruct (IH b (e :: st) H) as [H1 H2]. rewrite H1, H2. split; reflexivity.
+    + destruct st as [|x st']; [discriminate|]. cbn [length] in H.
+      destruct (IH b st' H) as [H1 H2]. rewrite H1, H2. cbn [app]. rewrite <- app_assoc. split; reflexivity.
+    + destruct (IH b st H) as [H1 H2]. rewrite H1, H2. split; reflexivity.
+    + destruct (IH b st H) as [H1 H2]. rewrite H1, H2. split; reflexivity.
+Qed.
+
+(* with no stray END the chunk boundaries are invisible in the output *)
+Lemma emit_chunks_flat pid tid cs : forall st,
+  no_stray_end (length st) (concat cs) = true ->
+  emit_chunks pid tid cs st = eo pid tid (concat cs) st.
+Proof.
+  induction cs as [|c cs IH]; intros st H; [reflexivity|].
+  cbn [concat] in *. rewrite emit_chunks_cons.
+  destruct (eo_app pid tid c (concat cs) st (no_stray_end_app _ _ _ H)) as [H1 _]. rewrite H1.
+  destruct (eo_events pid tid c st (concat cs) H) as [_ H2]. rewrite (IH _ H2). reflexivity.
+Qed.
+
+(* a properly nested stretch of events emits its objects and leaves the stack of open
+   begins exactly as it found it *)
+Lemma balanced_eo pid tid m : balanced m -> forall st rest,
+  eo pid tid (m ++ rest) st = eo pid tid m [] ++ eo pid tid rest st /\
+  es pid tid (m ++ rest) st = es pid tid rest st.
+Proof.
+  induction 1 as [|e l Hb He Hl IH|b m e l Hb He Hm IHm Hl IHl]; intros st rest.
+  - split; reflexivity.
+  - cbn [app]. rewrite !eo_cons, !es_cons. unfold is_begin, is_end in Hb, He.
+    destruct (IH st rest) as [H1 H2].
+    destruct (e_kind e); try discriminate; rewrite H1, H2; split; reflexivity.
+  - unfold is_begin in Hb. unfold is_end in He.
+    assert (Kb : e_kind b = KBegin) by (destruct (e_kind b); try discriminate; reflexivity).
+    assert (Ke : e_kind e = KEnd) by (destruct (e_kind e); try discriminate; reflexivity).
+    replace ((b :: m ++ e :: l) ++ rest) with (b :: m ++ (e :: l ++ rest))
+      by (cbn [app]; rewrite <- app_assoc; reflexivity).
+    rewrite !eo_cons, !es_cons, Kb.
+    destruct (IHm (b :: st) (e :: l ++ rest)) as [H1 H2]. rewrite H1, H2.
+    destruct (IHm [b] (e :: l)) as [H3 H4]. rewrite H3.
+    rewrite !eo_cons, !es_cons, Ke.
+    destruct (IHl st rest) as [H5 H6]. rewrite H5, H6.
+    destruct (IHl [] []) as [H7 _]. rewrite app_nil_r, eo_nil, app_nil_r in H7.
+    split; [|reflexivity]. cbn [app]. rewrite <- !app_assoc. cbn [app]. rewrite <- !app_assoc. reflexivity.
+Qed.
+
+Lemma balanced_no_stray m : balanced m -> forall d rest, no_stray_end d (m ++ rest) = no_stray_end d rest.
+Proof.
+  induction 1 as [|e l Hb He Hl IH|b m e l Hb He Hm IHm Hl IHl]; intros d rest.
+  - reflexivity.
+  - cbn [app no_stray_end]. unfold is_begin, is_end in Hb, He.
+    destruct (e_kind e); try discriminate; apply IH.
+  - unfold is_begin in Hb. unfold is_end in He.
+    replace ((b :: m ++ e :: l) ++ rest) with (b :: m ++ (e :: l ++ rest))
+      by (cbn [app]; rewrite <- app_assoc; reflexivity).
+    cbn [no_stray_end]. destruct (e_kind b); try discriminate. rewrite IHm.
+    cbn [no_stray_end]. destruct (e_kind e); try discriminate. apply IHl.
+Qed.
+
+(* each END is matched with the innermost open BEGIN: with only properly nested events
+   between b and e, the END e is processed against b — the utilisation counter of a long
+   interval carries b's time stamp — whatever was open before b stays open *)
+Lemma nesting_pair pid tid b m e rest st :
+  is_begin b = true -> is_end e = true -> balanced m ->
+  eo pid tid (b :: m ++ e :: rest) st =
+    JEvent pid tid b :: eo pid tid m [] ++ JEvent pid tid e :: util_of pid tid b e ++ eo pid tid rest st /\
+  es pid tid (b :: m ++ e :: rest) st = es pid tid rest st.
+Proof.
+  intros Hb He Hm. unfold is_begin in Hb. unfold is_end in He.
+  assert (Kb : e_kind b = KBegin) by (destruct (e_kind b); try discriminate; reflexivity).
+  assert (Ke : e_kind e = KEnd) by (destruct (e_kind e); try discriminate; reflexivity).
+  rewrite eo_cons, es_cons, Kb.
+  destruct (balanced_eo pid tid m Hm (b :: st) (e :: rest)) as [H1 H2]. rewrite H1, H2.
+  rewrite eo_cons, es_cons, Ke. split; reflexivity.
+Qed.
+
+(* savelog_nesting: the same inside a whole recorded thread, across chunk boundaries *)
+Lemma savelog_nesting pid tid pre b m e rest :
+  is_begin b = true -> is_end e = true -> balanced m ->
+  no_stray_end 0 (pre ++ b :: m ++ e :: rest) = true ->
+  emit_chunks pid tid (record_all (pre ++ b :: m ++ e :: rest)) [] =
+    eo pid tid pre [] ++
+    JEvent pid tid b :: eo pid tid m [] ++ JEvent pid tid e :: util_of pid tid b e ++
+    eo pid tid rest (es pid tid pre []).
+Proof.
+  intros Hb He Hm Hn.
+  destruct (chunks_concat (pre ++ b :: m ++ e :: rest)) as [Ec _].
+  rewrite emit_chunks_flat by (rewrite Ec; exact Hn). rewrite Ec.
+  destruct (eo_app pid tid pre (b :: m ++ e :: rest) [] (no_stray_end_app _ _ _ Hn)) as [H1 _].
+  rewrite H1. destruct (nesting_pair pid tid b m e rest (es pid tid pre []) Hb He Hm) as [H2 _].
+  rewrite H2. reflexivity.
+Qed.
+
+(* a properly nested thread ends with no open begin ("Missing end" is not printed) *)
+Lemma balanced_closed pid tid evs :
+  balanced evs -> no_stray_end 0 evs = true /\ es pid tid evs [] = [].
+Proof.
+  intro H. split.
+  - rewrite <- (app_nil_r evs). rewrite (balanced_no_stray evs H). reflexivity.
+  - destruct (balanced_eo pid tid evs H [] []) as [_ H2]. rewrite app_nil_r in H2. exact H2.
+Qed.
+
+(* ================================================================== wrappers for recorded threads *)
+Lemma threads_of_ok l : Forall input_ok l -> Forall thread_ok (threads_of l).
+Proof.
+  intro H. unfold threads_of. apply Forall_forall. intros t Ht. apply in_map_iff in Ht.
+  destruct Ht as [p [E Hp]]. subst t. rewrite Forall_forall in H. destruct (H p Hp) as [Hn He].
+  split; [exact Hn | apply record_all_ev_ok; exact He].
+Qed.
+
+Lemma savelog_wellformed_recorded pname pid l :
+  (forall p, pname = Some p -> text_ok p) -> Forall input_ok l ->
+  let objs := log_objs pname pid (threads_of l) in
+  saveLog pname pid (threads_of l) = [91] ++ intercalate [44] (map render objs) ++ [93] /\
+  Forall (fun o => json_object (render o) = true) objs /\
+  json_array (saveLog pname pid (threads_of l)) = true.
+Proof. intros Hp Hl. apply savelog_wellformed; [exact Hp | apply threads_of_ok; exact Hl]. Qed.
